@@ -38,7 +38,7 @@ class RecEvent(simpy.Event):
     """simpy.Event that logs the order in which events are succeeded."""
     def succeed(self, value=None):
         r = super().succeed(value)
-        self.env.fired_log.append(self)
+        self.env.fired_log.append((self, self.env.now))
         return r
 
 class RecEnv(simpy.Environment):
